@@ -84,6 +84,9 @@ fn opts_check(opts: &Opts) -> Result<()> {
     if opts.no_clobber && opts.force {
         return Err(XcpError::InvalidArguments("--force and --noclobber cannot be set at the same time.".to_string()).into());
     }
+    if opts.block_size == 0 && !opts.no_progress {
+        return Err(XcpError::InvalidArguments("--block-size must be greater than zero.".to_string()).into());
+    }
     Ok(())
 }
 
